@@ -118,6 +118,26 @@ fn scale_suites(hosts: &[HostKind]) -> Vec<Suite> {
             }
             v.push(Suite { name, host, programs: progs.clone(), bounds: Bounds { depth: 600, items_per_stream: 2, max_aborts: 0, max_silent: silent, max_late: 0, abort_before_start: false, max_spawn_more: 0 } });
         }
+        // one subscription fed with dozens of items while its consumer is busy or not polled: buffers
+        // behind a request are sized by somebody (32 and 64 are popular)
+        let flood: Vec<P> = [
+            P::Stream(s0()),
+            P::StreamReq(s0(), s0()),
+            P::StreamMap(s0()),
+            P::StreamStream(s0(), s0()),
+            P::All(vec![P::StreamReq(s0(), s0()), P::Req(s0())]),
+            P::MapEvent(Box::new(P::StreamReq(s0(), s0()))),
+        ]
+        .into_iter()
+        .map(P::normalized)
+        .filter(|p| !legacy || app::legacy_ok(p))
+        .collect();
+        for name in ["scale/stream-flood", "scale/stream-flood-silent"] {
+            if name == "scale/stream-flood-silent" && host.is_core() {
+                continue;
+            }
+            v.push(Suite { name, host, programs: flood.clone(), bounds: Bounds { depth: 400, items_per_stream: 70, max_aborts: 0, max_silent: if host.is_core() { 0 } else { 250 }, max_late: 0, abort_before_start: false, max_spawn_more: 0 } });
+        }
     }
     v
 }
@@ -129,6 +149,8 @@ pub fn policy_of(suite: &str) -> Option<seqx::Policy> {
         "scale/alternate" => seqx::Policy::Alternate,
         "scale/drop-third" => seqx::Policy::DropThird,
         "scale/silent-pairs" => seqx::Policy::SilentPairs,
+        "scale/stream-flood" => seqx::Policy::LowFirst,
+        "scale/stream-flood-silent" => seqx::Policy::Flood,
         _ => return None,
     })
 }
